@@ -66,6 +66,19 @@ def duplicate_lookup_complete(ctx, rid, f, call_b, call_t):
     return held
 
 
+class _EdgeCmp:
+    """stand-in for a comparison: the edges on which 'a duplicate exists' holds"""
+
+    def __init__(self, edges, site):
+        self.op = "Eq"
+        self.true_edges = edges
+        self.false_edges = set()
+        self._site = site
+
+    def site(self):
+        return self._site
+
+
 def replay_guard(ctx, rid, f, ty, depth=0):
     """Does step function f refuse a replay - an existing log entry of type `ty` for the slate id leads to
     Err before any effect?  The test may sit in f itself or in a Result-returning helper that f calls and
@@ -86,6 +99,35 @@ def replay_guard(ctx, rid, f, ty, depth=0):
                 if vf.has_field(a, LW + "types::TxLogEntry", "tx_type") and ("agg", TLT, ty) in b_ and vf.has_call(a, UPD + "retrieve_txs"):
                     dup.append(x)
     info = {"lookups_by_slate_id": len(keyed), "duplicate_tests": len(dup), "in": pp.short(f.id)}
+    if keyed and not dup:
+        # `if txs.iter().any(|t| t.tx_type == <ty>) { return Err(..) }`: the comparison sits in a closure handed to
+        # an iterator predicate over the look-up's result; the "is a duplicate" edge is the true edge of that call
+        for b, t in f.calls():
+            fn_ = t.get("f") or ""
+            if not (fn_.endswith("Iterator::any") or fn_.endswith("Iterator::find") or fn_.endswith("Iterator::position")) or not t["a"]:
+                continue
+            if not vf.has_call(vf.origins(f, t["a"][0]), UPD + "retrieve_txs"):
+                continue
+            for a in t["a"][1:]:
+                pl = vf.op_place(a)
+                if pl is None or pl[1]:
+                    continue
+                for bb in f.bbs:
+                    for st in bb["s"]:
+                        if st["k"] == "a" and st["d"] == [pl[0], []] and st["r"]["k"] == "agg" and st["r"].get("ak") == "closure":
+                            g = ctx.db.fns.get(st["r"]["adt"])
+                            if g is None:
+                                continue
+                            for x in cfg.comparisons(g):
+                                if x.op != "Eq":
+                                    continue
+                                pl_, pr_ = vf.producers(g, x.l) | vf.get_flow(g).of_operand(x.l), vf.producers(g, x.r) | vf.get_flow(g).of_operand(x.r)
+                                for aa, bb_ in ((pl_, pr_), (pr_, pl_)):
+                                    if vf.has_field(aa, LW + "types::TxLogEntry", "tx_type") and ("agg", TLT, ty) in bb_:
+                                        gd = cfg.call_guard(f, b)
+                                        if gd.ok:
+                                            dup.append(_EdgeCmp(gd.ok, c.site_of(f, b)))
+        info["duplicate_tests"] = len(dup)
     if keyed and dup:
         duplicate_lookup_complete(ctx, rid, f, keyed[0][0], keyed[0][1])
         x = dup[0]
